@@ -1,7 +1,7 @@
 (* C10 — executable instantiation used by the correspondence check (no proofs). *)
 From Coq Require Import List Arith Bool.
 Import ListNotations.
-From Verif.C10 Require Import Model.
+From Verif.C10 Require Export Model.
 
 (* what the harness saw.  Promises the program cannot name (internal ones) are reported as PI 0. *)
 Record obs := mkObs {
